@@ -29,7 +29,3 @@ var Registry = map[string]Rule{
 	"C19": C19,
 	"C20": C20,
 }
-
-// Thorough runs the extra thorough-tier work of a property.
-func Thorough(prop string, ctx *core.Ctx, r *core.Report, repo, root string) {
-}
